@@ -44,7 +44,8 @@ META = dict(
               "archiver operation sequences) + differential correspondence on real files",
 )
 MODULE = "OPM.Properties.C39"
-REQUIRED = ["OPM.C39.read_written_rows", "OPM.C39.archive_reads_back", "OPM.C39.rows_have_header_columns"]
+REQUIRED = ["OPM.C39.read_written_rows", "OPM.C39.archive_reads_back", "OPM.C39.rows_have_header_columns",
+            "OPM.C39.finished_archives_read_back"]
 
 SPECIAL = [",", "\\", '"', "\r", "\n", "a", ";", " "]
 UNITS = [None, "L/h", "%", "degC", "kg", "mS/cm"]
@@ -159,6 +160,19 @@ def gen_archiver_cases(ctx: Check):
             ops.append(["row"])
             if rng.random() < 0.04:
                 ops.append(["start"])   # on_start again for the same file name: header must not be repeated
+            k = rng.random()
+            if k < 0.10 and ops[-1][0] != "stop":
+                # Stop; the next run starts in a later second: normally, or below the disk-space guard (no file is
+                # prepared: the run gets no archive), possibly followed by a normal start in that same second
+                ops.append(["stop"])
+                ops += _value_ops(rng, tags, rng.randrange(0, 3))
+                ops.append(["startlow"] if rng.random() < 0.5 else ["start"])
+                if ops[-1][0] == "startlow" and rng.random() < 0.25:
+                    ops.append(["start"])
+            elif k < 0.13:
+                ops.append(["startlow"])   # low disk reported while the run's file is already there: rows go on
+        if ops[-1][0] in ("start", "startlow") and rng.random() < 0.5:
+            ops.append(["row"])
         cases.append({"tags": tags, "ops": ops})
     return cases
 
@@ -208,14 +222,16 @@ def _value_ops(rng, tags, n):
 # driving the real archiver
 
 class _Now:
-    def __init__(self, k):
+    def __init__(self, k, second=0):
         self.k = k
+        self.second = second
 
     def __str__(self):
         return time_str(self.k)
 
     def strftime(self, fmt):
-        return "2026-01-01_000000"   # same second: a repeated on_start finds the file of this run
+        # the second advances at every Stop: a repeated on_start within a run finds the file of this run
+        return f"2026-01-01_{self.second:06d}"
 
 
 def time_str(k: int) -> str:
@@ -232,12 +248,15 @@ class Rig:
         from openpectus.lang.exec.runlog import RunLog
         self.A = A
         self.clock = 0
+        self.second = 0
+        self.stopped = False
+        self.data_path = None
         rig = self
 
         class FakeDatetime:
             @staticmethod
             def now(tz=None):
-                return _Now(rig.clock)
+                return _Now(rig.clock, rig.second)
 
         self.FakeDatetime = FakeDatetime
         self.coll = TagCollection()
@@ -282,9 +301,20 @@ class Rig:
         saved = A.datetime
         A.datetime = self.FakeDatetime
         try:
-            if op[0] == "start":
-                self.archiver._on_before_start(RUN_ID)   # what the event emitter does before on_start
-                self.archiver.on_start(RUN_ID)
+            if op[0] in ("start", "startlow"):
+                free = A.get_free_space_mb
+                if op[0] == "startlow":
+                    A.get_free_space_mb = lambda d: 2      # below VERY_LOW_DISKSPACE_MB
+                try:
+                    self.archiver._on_before_start(RUN_ID)   # what the event emitter does before on_start
+                    self.archiver.on_start(RUN_ID)
+                finally:
+                    A.get_free_space_mb = free
+                self.stopped = False
+            elif op[0] == "stop":
+                self.archiver.on_stop()
+                self.stopped = True
+                self.second += 1
             elif op[0] == "row":
                 self.clock += 1
                 self._cur = []
@@ -305,21 +335,25 @@ class Rig:
     def path(self):
         return self.archiver.file_path
 
-    def stop_and_read(self) -> str:
-        """The product's own read-back path: Stop, then the text `create_run_stopped_msg` ships as the archive."""
-        A = self.A
-        saved = A.datetime
-        A.datetime = self.FakeDatetime
+    def stop_and_read(self):
+        """The product's own read-back path: Stop (unless the history ended with one), then the text
+        `create_run_stopped_msg` ships as the archive; None when that run has no archive file."""
+        if not self.stopped:
+            self.op(["stop"])
         try:
-            self.archiver.on_stop()
             return self.archiver.read_last_run_archive(RUN_ID)
-        finally:
-            A.datetime = saved
+        except FileNotFoundError:
+            return None
+
+    def files(self) -> list[str]:
+        """Every archive file the archiver left behind, oldest first."""
+        d = self.archiver.data_path
+        return [os.path.join(d, fn) for fn in sorted(os.listdir(d)) if fn.startswith("archiver-2")]
 
 
 def op_line(op, clock):
-    if op[0] == "start":
-        return "start"
+    if op[0] in ("start", "stop", "startlow"):
+        return op[0]
     if op[0] == "row":
         return "row\t" + enc(time_str(clock))
     if op[0] in ("set", "sim"):
@@ -337,7 +371,9 @@ def case_lines(case):
         if op[0] == "row":
             clock += 1
         out.append(op_line(op, clock))
-    return out + ["file", "read", "read"]
+    if case["ops"][-1][0] != "stop":
+        out.append("stop")
+    return out + ["files", "readall", "last"]
 
 
 def dialect():
@@ -356,47 +392,58 @@ def parse_text(text: str, **fmt) -> str:
 
 
 def run_case(case, tmp):
-    """Drive the real code; returns (answer lines, file path, text returned by read_last_run_archive)."""
+    """Drive the real code; returns (answer lines, archive file paths, text returned by read_last_run_archive)."""
     d = tempfile.mkdtemp(dir=tmp)
     rig = Rig(case, d)
     out = ["ok"]
     for op in case["ops"]:
         rig.op(op)
         out.append("ok")
-    p = rig.path()
-    with open(p, "r", newline="", encoding="utf-8") as f:
-        text = f.read()
-    out.append(enc(text))
-    out.append(py_read_file(p))
+    if not rig.stopped:
+        out.append("ok")
     try:
         shipped = rig.stop_and_read()
-        out.append(parse_text(shipped))
+        last = "nofile" if shipped is None else enc(shipped)
     except Exception as e:
-        shipped = None
-        out.append(f"err:{type(e).__name__}")
-    return out, p, shipped
+        shipped, last = e, f"err:{type(e).__name__}"
+    paths = rig.files()
+    texts = []
+    for p in paths:
+        with open(p, "r", newline="", encoding="utf-8") as f:
+            texts.append(f.read())
+    out.append(str(len(paths)) + "".join("\t" + enc(t) for t in texts))
+    out.append(str(len(paths)) + "".join(" # " + py_read_file(p) for p in paths))
+    out.append(last)
+    return out, paths, shipped
 
 
 MARK_SEPARATOR = "; "   # the documented separator of successive marks (tags_impl.MARK_SEPARATOR)
 
 
-def expected_rows(case):
+def expected_files(case):
     """The 'archived values' of the property, derived ONLY from what was set on the tags (never from what
-    archive() returned): per data row the time, the current value of every tag with a column (the simulated value
-    while simulating) and, for the Mark tag, the mark texts set since the previous line of the file, joined by the
-    Mark separator.  The header line is a line of the file too: as the code is, it evaluates the tags like a row,
-    so marks set before on_start belong to the header line and are not expected in a data row."""
+    archive() returned), per archive file: per data row the time, the current value of every tag with a column (the
+    simulated value while simulating) and, for the Mark tag, the mark texts set since the previous line that was
+    written, joined by the Mark separator.  The header line is a line of a file too: as the code is, it evaluates
+    the tags like a row, so marks set before it belong to the header line and are not expected in a data row.
+    A run that is started below the disk-space guard gets no file and no rows: what was archived is judged from the
+    files that exist.  Returns (list of row lists, index of the file of the last run or None)."""
     tags = case["tags"]
     vals = {i: None for i, t in enumerate(tags) if t[0] == "p"}
     sims: dict[int, object] = {}
     marks = {i: [] for i, t in enumerate(tags) if t[0] == "m"}
-    clock, exists, ready, rows = 0, False, False, []
-    for op in case["ops"]:
+    clock, ready, files, cur, last = 0, False, [], None, None
+    ops = list(case["ops"]) + ([] if case["ops"][-1][0] == "stop" else [["stop"]])
+    for op in ops:
         if op[0] == "start":
-            if not exists:
+            if cur is None:
                 for m in marks.values():
                     m.clear()
-            exists = ready = True
+                files.append([])
+                cur = len(files) - 1
+            ready = True
+        elif op[0] == "stop":
+            last, cur, ready = cur, None, False
         elif op[0] == "row":
             clock += 1
             if not ready:
@@ -408,7 +455,7 @@ def expected_rows(case):
                 elif t[0] == "m":
                     cells.append(MARK_SEPARATOR.join(marks[i]))
                     marks[i].clear()
-            rows.append(cells)
+            files[cur].append(cells)
         elif op[0] == "set":
             vals[op[1]] = op[2]
         elif op[0] == "sim":
@@ -417,7 +464,12 @@ def expected_rows(case):
             sims.pop(op[1], None)
         elif op[0] == "mark":
             marks[op[1]].append(op[2])
-    return rows
+    return files, last
+
+
+def expected_header(case):
+    """'Datetime (UTC)' and one cell per tag with a column: its name, with ' [unit]' when it has a unit."""
+    return ["Datetime (UTC)"] + [n if u is None else f"{n} [{u}]" for k, n, u in case["tags"] if k != "s"]
 
 
 FLOAT_TOLERANCE = Fraction(5, 10 ** 6)   # half a unit of the 5th decimal: Tag.archive writes floats as '%0.5f'
@@ -483,28 +535,45 @@ def compare_rows(rows, expected, header, keys, case, fails):
 
 
 def oracle_archive(case, tmp) -> list[Failure]:
-    """The property, stated over the real file, the product's own reader and the values that were set on the tags:
-    every data row has the header's columns; reading back — (a) the file with the archiver's dialect, (b) the text
-    ArchiverTag.read_last_run_archive returns (what is shipped as the run's archive) — gives the tag values / mark
-    texts unchanged (floats: as written, i.e. within half a unit of the 5th decimal)."""
-    _, p, shipped = run_case(case, tmp)
+    """The property, stated over every file the archiver leaves behind, the product's own reader and the values that
+    were set on the tags: each file starts with the header naming its columns, every data row has the header's
+    columns; reading back — (a) the file with the archiver's dialect, (b) the text
+    ArchiverTag.read_last_run_archive returns for the last run (what is shipped as the run's archive) — gives the
+    tag values / mark texts unchanged (floats: as written, i.e. within half a unit of the 5th decimal)."""
+    _, paths, shipped = run_case(case, tmp)
     fmt = dialect()
-    with open(p, "r", newline="", encoding="utf-8") as f:
-        rows = list(csv.reader(f, **fmt))
     fails: list[Failure] = []
-    expected = expected_rows(case)
-    compare_rows(rows, expected, rows[0] if rows else [], FILE_KEYS, case, fails)
-    if shipped is None:
-        fails.append(Failure("read_last_run_archive-raises", case, "read_last_run_archive raised after on_stop"))
+    expected, last = expected_files(case)
+    header = expected_header(case)
+    if len(paths) != len(expected):
+        fails.append(Failure("archive-file-count-differs", case,
+                             f"{len(paths)} archive files were left behind, {len(expected)} runs got an archive"))
+    for k, p in enumerate(paths):
+        with open(p, "r", newline="", encoding="utf-8") as f:
+            rows = list(csv.reader(f, **fmt))
+        if not rows or rows[0] != header:
+            fails.append(Failure("archive-file-without-its-header", case,
+                                 f"file {k}: first row {rows[:1]!r}, the header of these tags is {header!r}"))
+            continue
+        if k < len(expected):
+            compare_rows(rows, expected[k], rows[0], FILE_KEYS, case, fails)
+    if isinstance(shipped, Exception):
+        fails.append(Failure("read_last_run_archive-raises", case, f"{type(shipped).__name__}: {shipped}"))
+    elif shipped is None:
+        if last is not None:
+            fails.append(Failure("read_last_run_archive-finds-no-file", case, "the last run has an archive file"))
+    elif last is None:
+        fails.append(Failure("read_last_run_archive-returns-archive-of-a-run-without-one", case, repr(shipped[:80])))
     else:
         try:
             srows = list(csv.reader(io.StringIO(shipped, newline=""), **fmt))
         except csv.Error as e:
             fails.append(Failure("read_last_run_archive-unreadable", case, f"csv.Error: {e}"))
             return fails
-        compare_rows(srows, expected, srows[0] if srows else [], SHIPPED_KEYS, case, fails)
-        if rows and srows and srows[0] != rows[0]:
-            fails.append(Failure("read_last_run_archive-header-differs", case, f"{srows[0]!r} vs file {rows[0]!r}"))
+        if not srows or srows[0] != header:
+            fails.append(Failure("read_last_run_archive-header-differs", case, f"{srows[:1]!r} vs {header!r}"))
+        else:
+            compare_rows(srows, expected[last], srows[0], SHIPPED_KEYS, case, fails)
     return fails
 
 
@@ -588,6 +657,10 @@ def _run(ctx: Check, tmp: str) -> int:
         "create_run_stopped_msg ships); both must give the values that were set on the tags",
         "CPython csv writer/reader and text-file line splitting are modelled for this dialect and validated differentially",
         "tag classes are the ones in the tree: archive() is None for ArchiverTag only, and then always",
+        "several runs per history (Stop = next file name); starts below the disk-space guard (get_free_space_mb patched "
+        "to 2 MB) prepare no file: such a run has no archive and no rows, what was archived is judged per file left "
+        "behind (each must start with the header of its tags); read_last_run_archive raising FileNotFoundError for a "
+        "run without a file is tolerated (nothing to read back)",
         "oracle: expected cells come from the values SET on the tags (numbers compared numerically, texts exactly, "
         "marks joined by '; '), never from archive()'s return value; marks set before on_start belong to the "
         "header line (which evaluates the tags like a row) and are not expected in a data row",
@@ -611,8 +684,9 @@ def replay(obj) -> int:
             print(f.detail if f else "round trip ok")
             return 1 if f else 0
         if "tags" in case:
-            out, p, shipped = run_case(case, tmp)
-            print("file text:", repr(open(p, newline="", encoding="utf-8").read()))
+            out, paths, shipped = run_case(case, tmp)
+            for p in paths:
+                print("file", os.path.basename(p), repr(open(p, newline="", encoding="utf-8").read()))
             print("read_last_run_archive returned:", repr(shipped))
             fails = oracle_archive(case, tmp)
             for f in fails:
